@@ -1,1 +1,167 @@
-From GV Require Import Pool.Model Pool.Observe Pool.Monitors.
+From GV Require Import Pool.Model Pool.Observe Pool.Monitors Pool.Reduce Pool.Inv
+                       Pool.C03Size Pool.C03Pick Pool.C03Step Pool.InvC03.
+
+(* C03: the pool holds max(1, minSize) connections right after the first accepted
+   resolver update (non-empty address list, working factory); only a load-routed
+   call whose whole snapshot is at or above the watermark creates a connection,
+   exactly one, and only while the pool is below maxSize and no connection is
+   idle or connecting -- also when the call is parked between its two critical
+   sections and resumed later; at maxSize such a call is placed; a resolver
+   update creates connections only into an empty pool; a completion creates at
+   most one (the replacement of a refresh); connections are removed only as the
+   old connection of a completed refresh.
+
+   The size bound  size <= maxSize (for minSize <= maxSize)  is FALSE of the model
+   and of the code when a refresh completes after its old connection was shut
+   down and the pool has regrown (known finding RES, "revival").  Therefore:
+     C03R_holds  every harness-legal history: the bound relaxed by one per revival so far (P03R)
+     C03_holds   every harness-legal history without a revival: the strict monitor (P03)
+     C03_revival_refuted  a legal history on which P03 is false.
+   legal: no event returns RBadOp (needed only for Picks: a Pick on a picker whose
+   mutex a parked Pick holds would wait; the model answers RBadOp and the
+   harness never issues it, see c03_illegal_pick).  wf_raw: the configuration's
+   numeric fields are uint32 (only 0 <= minSize is used, see c03_negative_min). *)
+Theorem C03R_holds : forall raw ops,
+  legal raw ops -> wf_raw raw ->
+  monitor P03R raw (observe init_bal) (run raw init_bal ops) = true.
+Proof. exact C03R_holds_proof. Qed.
+Print Assumptions C03R_holds.
+
+Theorem C03_holds : forall raw ops,
+  legal raw ops -> wf_raw raw -> no_revival raw ops ->
+  monitor P03 raw (observe init_bal) (run raw init_bal ops) = true.
+Proof. exact C03_holds_proof. Qed.
+Print Assumptions C03_holds.
+
+(* the guards at their weakest: minSize not negative; no Pick answered RBadOp *)
+Theorem C03R_holds_pick_legal : forall raw ops,
+  min_nonneg raw -> Forall pick_legal (run raw init_bal ops) ->
+  monitor P03R raw (observe init_bal) (run raw init_bal ops) = true.
+Proof. exact C03R_pick_legal. Qed.
+Print Assumptions C03R_holds_pick_legal.
+
+(* the revival witness [res_raw], [res_ops] (InvC03.v) is corpus/pool/known_res.hist *)
+Example C03_revival_refuted :
+  exists raw ops, legal raw ops /\ monitor P03 raw (observe init_bal) (run raw init_bal ops) = false.
+Proof. exists res_raw, res_ops. split; [apply legal_b_sound|]; vm_compute; reflexivity. Qed.
+
+(* the same history in detail: connection 0 is refreshed (replacement 1), shut
+   down, the pool regrows to maxSize = 2 (connections 2 and 3), then the
+   replacement becomes READY and its channel is swapped back in: 3 connections *)
+Example c03_revival_witness :
+  let tr := run res_raw init_bal res_ops in
+  map ev_ret tr = [RNone; RNone; RPicked 0; RNone; RNone; RNone; RNone; RNone; RPicked 2; RNoSubConn; RNone; RNone] /\
+  map (fun s => pool_size s) (run_states res_raw init_bal res_ops) = [0; 1; 1; 1; 1; 1; 0; 1; 1; 1; 2; 2; 3]%Z /\
+  run_revivals res_raw init_bal res_ops = 1%Z /\
+  has_resurrection (observe init_bal) tr = true /\
+  monitor P03 res_raw (observe init_bal) tr = false /\
+  monitor P03R res_raw (observe init_bal) tr = true /\
+  known_RES res_raw (observe init_bal) tr = true.
+Proof. vm_compute. repeat split; reflexivity. Qed.
+
+(* state-level theorems (every reachable state / every step of the model, hence
+   every interleaving of the modelled critical sections, parked Picks included) *)
+Theorem C03_init_size : forall raw s addrs a s' o r,
+  min_nonneg raw -> Inv s -> b_cfg s = None -> b_fail s = false -> addrs <> 0%N ->
+  UpdateClientConnState s addrs a raw = (s', o, r) -> b_cfg s' <> None ->
+  exists c, b_cfg s' = Some c /\ c = effective (match a with CfgVal => raw | _ => None end) /\
+            pool_size s' = c_min c /\
+            c_min c = Z.max 1 (match a, raw with CfgVal, Some c0 => c_min c0 | _, _ => 0%Z end).
+Proof. exact init_size. Qed.
+Print Assumptions C03_init_size.
+
+Theorem C03_growth_only_when_saturated : forall raw s o order s1 outs rt,
+  Inv s -> CfgWf s -> step raw s o order = (s1, outs, rt) -> (pool_size s < pool_size s1)%Z ->
+  match o with
+  | OpResolver _ _ => pool_size s = 0%Z
+  | OpConnState _ _ => revives s o = true /\ pool_size s1 = (pool_size s + 1)%Z
+  | OpPick pi m hc rk _ _ =>
+      exists refs, nth_error (b_published s) pi = Some (PSnap refs) /\
+                   load_routed s m hc rk = true /\ saturated s refs /\ may_grow s /\
+                   b_gate s = false /\ rt = RNoSubConn /\ pool_size s1 = (pool_size s + 1)%Z
+  | OpResume _ => may_grow s /\ rt = RNoSubConn /\ pool_size s1 = (pool_size s + 1)%Z
+  | _ => False
+  end.
+Proof. exact growth_only_when_saturated. Qed.
+Print Assumptions C03_growth_only_when_saturated.
+
+Theorem C03_size_bound : forall raw ops,
+  min_nonneg raw -> SizeOK (run_revivals raw init_bal ops) (run_state raw init_bal ops).
+Proof. exact size_bound. Qed.
+Print Assumptions C03_size_bound.
+
+Theorem C03_size_bound_no_revival : forall raw ops,
+  min_nonneg raw -> no_revival raw ops ->
+  forall c, b_cfg (run_state raw init_bal ops) = Some c -> (c_min c <= c_max c)%Z ->
+            (pool_size (run_state raw init_bal ops) <= c_max c)%Z.
+Proof. exact size_bound_no_revival. Qed.
+Print Assumptions C03_size_bound_no_revival.
+
+Theorem C03_size_bound_step : forall raw s o order s' outs rt ub,
+  min_nonneg raw -> Inv s -> CfgWf s -> revives s o = false ->
+  SizeOK 0 s -> full_step raw s o order = (s', outs, rt, ub) -> SizeOK 0 s'.
+Proof. exact size_bound_step. Qed.
+Print Assumptions C03_size_bound_step.
+
+Theorem C03_remove_only_swapped : forall raw s o order s1 outs rt,
+  Inv s -> step raw s o order = (s1, outs, rt) ->
+  removes outs = [] \/
+  exists sc i ref, o = OpConnState sc Ready /\ aget (b_refr s) sc = Some i /\ get_slot s i = Some ref /\
+                   removes outs = [sl_conn ref].
+Proof. exact remove_only_swapped. Qed.
+Print Assumptions C03_remove_only_swapped.
+
+(* non-vacuity: min 1, max 3, watermark 1.  The pool grows by saturation (events 3
+   and 9); a call on the old picker is parked in its first critical section
+   while the pool holds 2 < 3 connections (event 7); the pool reaches maxSize;
+   the parked call resumes, re-checks the size under the lock and creates nothing *)
+Example c03_growth_history :
+  let raw := Some (mkConfig 1 3 1 false 0 0 false []) in
+  let pk0 := OpPick 0 0 false [] None false in
+  let pk1 := OpPick 1 0 false [] None false in
+  let ops := [(OpResolver 1 CfgVal, []); (OpConnState 0 Ready, []); (pk0, []); (pk0, []);
+              (OpConnState 1 Ready, []); (pk1, []); (OpGate true, []); (pk0, []); (OpGate false, []);
+              (pk1, []); (OpResume 0, [])] in
+  let tr := run raw init_bal ops in
+  legal_b raw ops = true /\
+  map ev_ret tr = [RNone; RNone; RPicked 0; RNoSubConn; RNone; RPicked 1; RNone; RParked; RNone; RNoSubConn; RNoSubConn] /\
+  map (fun s => pool_size s) (run_states raw init_bal ops) = [0; 1; 1; 1; 2; 2; 2; 2; 2; 2; 3; 3]%Z /\
+  map (fun ev => count_newsc (ev_out ev)) tr = [1; 0; 0; 1; 0; 0; 0; 0; 0; 1; 0]%nat /\
+  has_resurrection (observe init_bal) tr = false /\
+  monitor P03 raw (observe init_bal) tr = true /\ monitor P03R raw (observe init_bal) tr = true.
+Proof. vm_compute. repeat split; reflexivity. Qed.
+
+(* the monitor rejects a pool above maxSize without a revival: a third connection
+   created at max = 2 *)
+Example c03_bad_above_max :
+  let raw := Some (mkConfig 1 2 1 false 0 0 false []) in
+  let sl c n := mkSlot c 0 n 0 0 false 0 in
+  let o1 := mkObs true 1 2 0 0 Ready [] [] [(0%N, Ready); (1%N, Ready)] [(0%N, 0%nat); (1%N, 1%nat)]
+                  [sl 0%N 1%Z; sl 1%N 1%Z] 4294967295 [] false (PSnap [0; 1]%nat) 1 0 true in
+  let o2 := mkObs true 1 2 0 0 Ready [] [] [(0%N, Ready); (1%N, Ready); (2%N, Idle)]
+                  [(0%N, 0%nat); (1%N, 1%nat); (2%N, 2%nat)]
+                  [sl 0%N 1%Z; sl 1%N 1%Z; sl 2%N 0%Z] 4294967295 [] false (PSnap [0; 1]%nat) 1 0 true in
+  let ms := mkMstate [PSnap [0; 1]%nat] (Some (Ready, PSnap [0; 1]%nat)) [] [] [] [] false (Some raw) 0 in
+  let ev := mkEvent (OpPick 0 0 false [] None false) [ONewSC 2 1; OConnect 2] RNoSubConn [] (Some o2) in
+  mon_from P03R raw ms o1 [ev] = false /\ mon_from P03 raw ms o1 [ev] = false /\ has_resurrection o1 [ev] = false.
+Proof. vm_compute. repeat split; reflexivity. Qed.
+
+(* why [legal]: a Pick on a picker whose mutex a parked Pick holds (answered RBadOp
+   by the model, never issued by the harness) at maxSize is not placed *)
+Example c03_illegal_pick :
+  let raw := Some (mkConfig 1 2 1 false 0 0 false []) in
+  let pk0 := OpPick 0 0 false [] None false in
+  let ops := [(OpResolver 1 CfgVal, []); (OpConnState 0 Ready, []); (pk0, []); (OpGate true, []); (pk0, []);
+              (OpGate false, []); (OpConnState 0 TransientFailure, []); (OpConnState 0 Ready, []);
+              (OpPick 2 0 false [] None false, []); (pk0, [])] in
+  let tr := run raw init_bal ops in
+  map ev_ret tr = [RNone; RNone; RPicked 0; RNone; RParked; RNone; RNone; RNone; RNoSubConn; RBadOp] /\
+  legal_b raw ops = false /\ monitor P03R raw (observe init_bal) tr = false.
+Proof. vm_compute. repeat split; reflexivity. Qed.
+
+(* why [wf_raw]: a negative minSize (impossible for a uint32 field) *)
+Example c03_negative_min :
+  let raw := Some (mkConfig (-1) 2 1 false 0 0 false []) in
+  let ops := [(OpResolver 1 CfgVal, [])] in
+  legal_b raw ops = true /\ monitor P03R raw (observe init_bal) (run raw init_bal ops) = false.
+Proof. vm_compute. split; reflexivity. Qed.
